@@ -295,6 +295,12 @@ func WP[T any](p *T, site string) *T {
 }
 
 func (r *Run) access(addr uintptr, site string, write bool) {
+	if onOwnStack(addr) {
+		// a variable on the accessing goroutine's own stack is not shared with anybody, and
+		// stack memory that is given back (a goroutine ends, a stack is copied) can become a
+		// heap object within the same run: its old shadow entry would fake a race
+		return
+	}
 	t := r.lookup()
 	if t == nil {
 		return
